@@ -162,6 +162,19 @@ fn norms(t: &mut Toks, cx: &mut Ctx) -> String {
         cx.check(ni <= n2 * (1.0 + tol) && n2 <= n1 * (1.0 + tol), "inf-norm <= 2-norm <= 1-norm violated");
         let np = g(&nv[2]);
         cx.check(ni <= np * (1.0 + 1e-9) && np <= n1 * (1.0 + 1e-9), "inf-norm <= p-norm <= 1-norm violated");
+        // the norms against their definitions, to the accuracy of the theorems of C15F (u = 2^-53): norm_1 within g_n,
+        // norm_2 within g_(n+2), norm_inf exact; norm_p (no theorem: powf) within (n + 8) u of (sum |x_i|^p)^(1/p)
+        if v.vec.iter().all(|x| x.is_finite()) {
+            let n = v.size() as f64; let uu = f64::EPSILON / 2.0;
+            let d1: f64 = v.vec.iter().map(|x| x.abs()).sum();
+            let dmax = v.vec.iter().map(|x| x.abs()).fold(0.0, f64::max);
+            let d2: f64 = v.vec.iter().map(|x| x * x).sum::<f64>().sqrt();
+            let dp: f64 = v.vec.iter().map(|x| x.abs().powf(p)).sum::<f64>().powf(1.0 / p);
+            cx.check(ni == dmax, "norm_inf differs from max |x_i|");
+            cx.check((n1 - d1).abs() <= 2.02 * n * uu * d1, "norm_1 differs from sum |x_i| by more than the rounding bound of theorem norm1_rounding");
+            if d2.is_finite() && d2 > 0.0 { cx.check((n2 - d2).abs() <= 2.02 * (n + 2.0) * uu * d2, "norm_2 differs from sqrt(sum x_i^2) by more than the rounding bound of theorem norm2_rounding"); }
+            if dp.is_finite() && dp > 0.0 && p >= 1.0 { cx.check((np - dp).abs() <= 2.0 * (n + 8.0) * uu * dp * p.max(1.0), &format!("norm_p differs from (sum |x_i|^p)^(1/p) by a relative {:e}", (np - dp).abs() / dp)); }
+        }
     }
     let w4 = |x: &[Result<f64, &'static str>; 4]| x.iter().map(|r| match r { Ok(y) => y.wr(), Err(c) => format!("!{}", c) }).collect::<Vec<_>>().join(" ");
     cx.meta("tag", "f");
@@ -253,8 +266,8 @@ pub fn gen(rng: &mut Rng, tier: Tier, out: &mut Vec<String>) {
     for _ in 0..nh / 6 { let nops = 1 + rng.below(20); out.push(gen_hist::<Cmplx>(rng, nops, 5, 8)); }
     for _ in 0..nh / 3 {
         let big = rng.chance(10); let n = rng.below(if big { 64 } else { 9 });
-        let kind = rng.below(3);
-        let p = *rng.pick(&[1.0f64, 1.5, 2.0, 3.0, 8.0, 4.5]);
+        let kind = rng.below(4);
+        let p = *rng.pick(&[1.0f64, 1.5, 2.0, 3.0, 8.0, 4.5, 1.25]);
         out.push(format!("vec_norms {} {} {} {}", gen_vec_str::<f64>(rng, n, 15, kind), gen_vec_str::<f64>(rng, n, 15, kind), f64::gen(rng, 5, kind).wr(), p.wr()));
     }
     for _ in 0..nh / 3 {
